@@ -99,6 +99,24 @@ Qed.
 
 
 
+(** version 2, LOCAL command (health checks of the proxy itself): the family/protocol byte and the address block are
+    ignored, whatever they are -- all 256 values of the byte, any declared length *)
+Lemma v2_local_parse : forall fp l0 l1 body, v2_parse (V2PREFIX ++ [32%N; fp] ++ [l0; l1] ++ body) = Some NoAddr.
+Proof. intros fp l0 l1 body. vm_compute. reflexivity. Qed.
+
+Lemma v2_local_header_any_segmentation_proof : forall fp body payload cs,
+  (N.of_nat (length body) < 65536)%N ->
+  chunks cs ((V2PREFIX ++ [32%N; fp] ++ N_to_be 2 (N.of_nat (length body)) ++ body) ++ payload) ->
+  run wfeed winit cs = (payload, Some (Pass NoAddr, [])).
+Proof.
+  intros fp body payload cs Hl Hch.
+  apply (v2_header_any_segmentation_proof 32%N fp body payload NoAddr cs); [reflexivity | exact Hl | | exact Hch].
+  pose proof (N_to_be_length 2 (N.of_nat (length body))) as Hbl.
+  destruct (N_to_be 2 (N.of_nat (length body))) as [|l0 [|l1 [|? ?]]]; simpl in Hbl; try discriminate.
+  apply v2_local_parse.
+Qed.
+
+
 (** the wrapper as it is at the pinned commit closes a valid connection whose first delivery has
     fewer than 8 bytes, although it accepts the same stream delivered at once (finding F19) *)
 Lemma short_first_chunk_refuted_proof : exists cs1 cs2,
